@@ -5,98 +5,99 @@ Import ListNotations.
 Open Scope string_scope.
 
 (* ---------- the call functions the two interpreters build at fuel n ---------- *)
-Definition icallf (funs : list fundef) (n : nat) : callfn := fun f vs g =>
+Definition icallf (cm : catchfn) (funs : list fundef) (n : nat) : callfn := fun f vs g =>
   match find_fun funs f with
   | None => Some (EX (err "undefined function"), g)
   | Some d =>
-      match iexec funs n f (fbody d) (bind_params (fparams d) vs [], []) g with
+      match iexec cm funs n f (fbody d) (bind_params (fparams d) vs [], []) g with
       | Fuel => None
       | Res c _ g' => Some (call_result c, g')
       end
   end.
-Definition rcallf (funs : list fundef) (n : nat) : callfn := fun f vs g =>
+Definition rcallf (cm : catchfn) (funs : list fundef) (n : nat) : callfn := fun f vs g =>
   match find_fun funs f with
   | None => Some (EX (err "undefined function"), g)
   | Some d =>
-      match rexec funs n f (resolve [] [] (fbody d)) (bind_params (fparams d) vs [], []) g with
+      match rexec cm funs n f (resolve [] [] (fbody d)) (bind_params (fparams d) vs [], []) g with
       | Fuel => None
       | Res c _ g' => Some (rcall_result c, g')
       end
   end.
 
 Section Unfold.
+Variable cm : catchfn.
 Variable funs : list fundef.
 Variables (n : nat) (fn : string) (fr : frame) (g : glob).
-Let ev := ieval (icallf funs n) funs fn.
-Let cond := icond (icallf funs n) funs fn.
+Let ev := ieval (icallf cm funs n) funs fn.
+Let cond := icond (icallf cm funs n) funs fn.
 
-Lemma iexec_0 s : iexec funs 0 fn s fr g = Fuel.
+Lemma iexec_0 s : iexec cm funs 0 fn s fr g = Fuel.
 Proof. reflexivity. Qed.
-Lemma iexec_skip : iexec funs (S n) fn SSkip fr g = Res INone fr g.
+Lemma iexec_skip : iexec cm funs (S n) fn SSkip fr g = Res INone fr g.
 Proof. reflexivity. Qed.
-Lemma iexec_seq a b : iexec funs (S n) fn (SSeq a b) fr g =
-  match iexec funs n fn a fr g with Res INone fr g => iexec funs n fn b fr g | r => r end.
+Lemma iexec_seq a b : iexec cm funs (S n) fn (SSeq a b) fr g =
+  match iexec cm funs n fn a fr g with Res INone fr g => iexec cm funs n fn b fr g | r => r end.
 Proof. reflexivity. Qed.
-Lemma iexec_expr e : iexec funs (S n) fn (SExpr e) fr g =
+Lemma iexec_expr e : iexec cm funs (S n) fn (SExpr e) fr g =
   match ev e fr g with
   | Res (EV _) fr g => Res INone fr g | Res (EX x) fr g => Res (IThrow x) fr g | Fuel => Fuel end.
 Proof. reflexivity. Qed.
-Lemma iexec_echo e : iexec funs (S n) fn (SEcho e) fr g =
+Lemma iexec_echo e : iexec cm funs (S n) fn (SEcho e) fr g =
   match ev e fr g with
   | Res (EV v) fr g => Res INone fr (emit (to_str v) g) | Res (EX x) fr g => Res (IThrow x) fr g | Fuel => Fuel end.
 Proof. reflexivity. Qed.
-Lemma iexec_push x e : iexec funs (S n) fn (SPush x e) fr g =
+Lemma iexec_push x e : iexec cm funs (S n) fn (SPush x e) fr g =
   match ev e fr g with
   | Res (EV v) fr g => let '(fr', g') := wr fn x (arr_push (rd fn x fr g) v) fr g in Res INone fr' g'
   | Res (EX x) fr g => Res (IThrow x) fr g | Fuel => Fuel end.
 Proof. reflexivity. Qed.
 Definition ielif (e : stmt) := fix elif (l : elifs) (fr : frame) (g : glob) : res ictl :=
   match l with
-  | EINil => iexec funs n fn e fr g
-  | EICons c b r => thr (cond c fr g) (fun t fr g => if t then iexec funs n fn b fr g else elif r fr g)
+  | EINil => iexec cm funs n fn e fr g
+  | EICons c b r => thr (cond c fr g) (fun t fr g => if t then iexec cm funs n fn b fr g else elif r fr g)
   end.
-Lemma iexec_if c t ei e : iexec funs (S n) fn (SIf c t ei e) fr g =
-  thr (cond c fr g) (fun b fr g => if b then iexec funs n fn t fr g else ielif e ei fr g).
+Lemma iexec_if c t ei e : iexec cm funs (S n) fn (SIf c t ei e) fr g =
+  thr (cond c fr g) (fun b fr g => if b then iexec cm funs n fn t fr g else ielif e ei fr g).
 Proof. reflexivity. Qed.
-Lemma iexec_while c b : iexec funs (S n) fn (SWhile c b) fr g =
+Lemma iexec_while c b : iexec cm funs (S n) fn (SWhile c b) fr g =
   thr (cond c fr g) (fun t fr g =>
     if t then
-      match iexec funs n fn b fr g with
+      match iexec cm funs n fn b fr g with
       | Fuel => Fuel
       | Res cb fr g =>
           match loop_ctl cb with
-          | LNext => iexec funs n fn (SWhile c b) fr g
+          | LNext => iexec cm funs n fn (SWhile c b) fr g
           | LExit c' => Res c' fr g
           end
       end
     else Res INone fr g).
 Proof. reflexivity. Qed.
-Lemma iexec_dowhile b c : iexec funs (S n) fn (SDoWhile b c) fr g =
-  match iexec funs n fn b fr g with
+Lemma iexec_dowhile b c : iexec cm funs (S n) fn (SDoWhile b c) fr g =
+  match iexec cm funs n fn b fr g with
   | Fuel => Fuel
   | Res cb fr g =>
       match loop_ctl cb with
-      | LNext => thr (cond c fr g) (fun t fr g => if t then iexec funs n fn (SDoWhile b c) fr g else Res INone fr g)
+      | LNext => thr (cond c fr g) (fun t fr g => if t then iexec cm funs n fn (SDoWhile b c) fr g else Res INone fr g)
       | LExit c' => Res c' fr g
       end
   end.
 Proof. reflexivity. Qed.
-Lemma iexec_for init c inc b : iexec funs (S n) fn (SFor init c inc b) fr g =
-  match ieval_each (icallf funs n) funs fn init fr g with
+Lemma iexec_for init c inc b : iexec cm funs (S n) fn (SFor init c inc b) fr g =
+  match ieval_each (icallf cm funs n) funs fn init fr g with
   | Fuel => Fuel
   | Res (Some x) fr g => Res (IThrow x) fr g
   | Res None fr g =>
-      thr (icond_for (icallf funs n) funs fn c fr g) (fun t fr g =>
+      thr (icond_for (icallf cm funs n) funs fn c fr g) (fun t fr g =>
         if t then
-          match iexec funs n fn b fr g with
+          match iexec cm funs n fn b fr g with
           | Fuel => Fuel
           | Res cb fr g =>
               match loop_ctl cb with
               | LNext =>
-                  match ieval_incs (icallf funs n) funs fn inc fr g with
+                  match ieval_incs (icallf cm funs n) funs fn inc fr g with
                   | Fuel => Fuel
                   | Res (Some x) fr g => Res (IThrow x) fr g
-                  | Res None fr g => iexec funs n fn (SFor ANil c inc b) fr g
+                  | Res None fr g => iexec cm funs n fn (SFor ANil c inc b) fr g
                   end
               | LExit c' => Res c' fr g
               end
@@ -110,7 +111,7 @@ Definition ieach (k : option string) (v : string) (b : stmt) := fix each (l : li
   | (kv, vv) :: r =>
       let '(fr1, g1) := wr fn v vv fr g in
       let '(fr2, g2) := match k with Some kx => wr fn kx kv fr1 g1 | None => (fr1, g1) end in
-      match iexec funs n fn b fr2 g2 with
+      match iexec cm funs n fn b fr2 g2 with
       | Fuel => Fuel
       | Res cb fr g =>
           match loop_ctl cb with
@@ -119,7 +120,7 @@ Definition ieach (k : option string) (v : string) (b : stmt) := fix each (l : li
           end
       end
   end.
-Lemma iexec_foreach a k v b : iexec funs (S n) fn (SForeach a k v b) fr g =
+Lemma iexec_foreach a k v b : iexec cm funs (S n) fn (SForeach a k v b) fr g =
   match ev a fr g with
   | Fuel => Fuel
   | Res (EX x) fr g => Res (IThrow x) fr g
@@ -131,7 +132,7 @@ Lemma iexec_foreach a k v b : iexec funs (S n) fn (SForeach a k v b) fr g =
   end.
 Proof. reflexivity. Qed.
 Definition irun_clause (b : stmt) (fr : frame) (g : glob) : res ictl :=
-  match iexec funs n fn b fr g with
+  match iexec cm funs n fn b fr g with
   | Fuel => Fuel
   | Res cb fr g => Res (switch_ctl cb) fr g
   end.
@@ -146,104 +147,138 @@ Definition icases (cl : clauses) (cv : value) := fix cases (l : clauses) (fr : f
       | Res (EV v) fr g => if switch_match cv v then irun_clause b fr g else cases r fr g
       end
   end.
-Lemma iexec_switch c cl : iexec funs (S n) fn (SSwitch c cl) fr g =
+Lemma iexec_switch c cl : iexec cm funs (S n) fn (SSwitch c cl) fr g =
   match ev c fr g with
   | Fuel => Fuel
   | Res (EX x) fr g => Res (IThrow x) fr g
   | Res (EV cv) fr g => icases cl cv cl fr g
   end.
 Proof. reflexivity. Qed.
-Lemma iexec_break k : iexec funs (S n) fn (SBreak k) fr g = Res (IBrk k) fr g.
+Lemma iexec_break k : iexec cm funs (S n) fn (SBreak k) fr g = Res (IBrk k) fr g.
 Proof. reflexivity. Qed.
-Lemma iexec_continue k : iexec funs (S n) fn (SContinue k) fr g = Res (ICnt k) fr g.
+Lemma iexec_continue k : iexec cm funs (S n) fn (SContinue k) fr g = Res (ICnt k) fr g.
 Proof. reflexivity. Qed.
-Lemma iexec_return_none : iexec funs (S n) fn (SReturn None) fr g = Res (IRet VNull) fr g.
+Lemma iexec_return_none : iexec cm funs (S n) fn (SReturn None) fr g = Res (IRet VNull) fr g.
 Proof. reflexivity. Qed.
-Lemma iexec_return e : iexec funs (S n) fn (SReturn (Some e)) fr g =
+Lemma iexec_return e : iexec cm funs (S n) fn (SReturn (Some e)) fr g =
   match ev e fr g with
   | Res (EV v) fr g => Res (IRet v) fr g | Res (EX x) fr g => Res (IThrow x) fr g | Fuel => Fuel end.
 Proof. reflexivity. Qed.
-Lemma iexec_static x init : iexec funs (S n) fn (SStatic x init) fr g =
+Lemma iexec_static x init : iexec cm funs (S n) fn (SStatic x init) fr g =
   if String.eqb fn "" then let '(fr', g') := wr fn x init fr g in Res INone fr' g'
   else
-    let st := match sget (fn, x) (fst g) with Some _ => fst g | None => sset (fn, x) init (fst g) end in
-    Res INone (fst fr, x :: snd fr) (st, snd g).
+    let st := match sget (fn, x) (gstat g) with Some _ => gstat g | None => sset (fn, x) init (gstat g) end in
+    Res INone (fst fr, x :: snd fr) (set_stat st g).
+Proof. reflexivity. Qed.
+Lemma iexec_try b cs f : iexec cm funs (S n) fn (STry b cs f) fr g =
+  match iexec cm funs n fn b fr (mark CTry g) with
+  | Fuel => Fuel
+  | Res cb fr1 g1 =>
+      match
+        match cb with
+        | IThrow x =>
+            match find_catch cm cs x with
+            | Some (xv, cbody) =>
+                let '(fr2, g2) := match xv with Some v => wr fn v x fr1 g1 | None => (fr1, g1) end in
+                iexec cm funs n fn cbody fr2 g2
+            | None => Res cb fr1 g1
+            end
+        | _ => Res cb fr1 g1
+        end
+      with
+      | Fuel => Fuel
+      | Res c fr3 g3 =>
+          match iexec cm funs n fn f fr3 (mark CFin g3) with
+          | Fuel => Fuel
+          | Res INone fr4 g4 => Res c fr4 g4
+          | Res cf fr4 g4 => Res cf fr4 g4
+          end
+      end
+  end.
+Proof. reflexivity. Qed.
+Lemma iexec_throw e : iexec cm funs (S n) fn (SThrow e) fr g =
+  match ev e fr g with
+  | Res (EV v) fr g => Res (IThrow (thrown_of v)) fr g
+  | Res (EX x) fr g => Res (IThrow x) fr g
+  | Fuel => Fuel
+  end.
 Proof. reflexivity. Qed.
 End Unfold.
 
 Section UnfoldR.
+Variable cm : catchfn.
 Variable funs : list fundef.
 Variables (n : nat) (fn : string) (fr : frame) (g : glob).
-Let ev := reval (rcallf funs n) funs fn.
-Let cond := rcond (rcallf funs n) funs fn.
+Let ev := reval (rcallf cm funs n) funs fn.
+Let cond := rcond (rcallf cm funs n) funs fn.
 
-Lemma rexec_0 s : rexec funs 0 fn s fr g = Fuel.
+Lemma rexec_0 s : rexec cm funs 0 fn s fr g = Fuel.
 Proof. reflexivity. Qed.
-Lemma rexec_skip : rexec funs (S n) fn RSkip fr g = Res RNone fr g.
+Lemma rexec_skip : rexec cm funs (S n) fn RSkip fr g = Res RNone fr g.
 Proof. reflexivity. Qed.
-Lemma rexec_seq a b : rexec funs (S n) fn (RSeq a b) fr g =
-  match rexec funs n fn a fr g with Res RNone fr g => rexec funs n fn b fr g | r => r end.
+Lemma rexec_seq a b : rexec cm funs (S n) fn (RSeq a b) fr g =
+  match rexec cm funs n fn a fr g with Res RNone fr g => rexec cm funs n fn b fr g | r => r end.
 Proof. reflexivity. Qed.
-Lemma rexec_expr e : rexec funs (S n) fn (RExpr e) fr g =
+Lemma rexec_expr e : rexec cm funs (S n) fn (RExpr e) fr g =
   match ev e fr g with
   | Res (EV _) fr g => Res RNone fr g | Res (EX x) fr g => Res (RThrow x) fr g | Fuel => Fuel end.
 Proof. reflexivity. Qed.
-Lemma rexec_echo e : rexec funs (S n) fn (REcho e) fr g =
+Lemma rexec_echo e : rexec cm funs (S n) fn (REcho e) fr g =
   match ev e fr g with
   | Res (EV v) fr g => Res RNone fr (emit (to_str v) g) | Res (EX x) fr g => Res (RThrow x) fr g | Fuel => Fuel end.
 Proof. reflexivity. Qed.
-Lemma rexec_push x e : rexec funs (S n) fn (RPush x e) fr g =
+Lemma rexec_push x e : rexec cm funs (S n) fn (RPush x e) fr g =
   match ev e fr g with
   | Res (EV v) fr g => let '(fr', g') := wr fn x (arr_push (rd fn x fr g) v) fr g in Res RNone fr' g'
   | Res (EX x) fr g => Res (RThrow x) fr g | Fuel => Fuel end.
 Proof. reflexivity. Qed.
 Definition relif (e : rstmt) := fix elif (l : relifs) (fr : frame) (g : glob) : res rctl :=
   match l with
-  | REINil => rexec funs n fn e fr g
-  | REICons c b r => rthr (cond c fr g) (fun t fr g => if t then rexec funs n fn b fr g else elif r fr g)
+  | REINil => rexec cm funs n fn e fr g
+  | REICons c b r => rthr (cond c fr g) (fun t fr g => if t then rexec cm funs n fn b fr g else elif r fr g)
   end.
-Lemma rexec_if c t ei e : rexec funs (S n) fn (RIf c t ei e) fr g =
-  rthr (cond c fr g) (fun b fr g => if b then rexec funs n fn t fr g else relif e ei fr g).
+Lemma rexec_if c t ei e : rexec cm funs (S n) fn (RIf c t ei e) fr g =
+  rthr (cond c fr g) (fun b fr g => if b then rexec cm funs n fn t fr g else relif e ei fr g).
 Proof. reflexivity. Qed.
-Lemma rexec_while id c b : rexec funs (S n) fn (RWhile id c b) fr g =
+Lemma rexec_while id c b : rexec cm funs (S n) fn (RWhile id c b) fr g =
   rthr (cond c fr g) (fun t fr g =>
     if t then
-      match rexec funs n fn b fr g with
+      match rexec cm funs n fn b fr g with
       | Fuel => Fuel
       | Res cb fr g =>
           match rloop_ctl id cb with
-          | RLNext => rexec funs n fn (RWhile id c b) fr g
+          | RLNext => rexec cm funs n fn (RWhile id c b) fr g
           | RLExit c' => Res c' fr g
           end
       end
     else Res RNone fr g).
 Proof. reflexivity. Qed.
-Lemma rexec_dowhile id b c : rexec funs (S n) fn (RDoWhile id b c) fr g =
-  match rexec funs n fn b fr g with
+Lemma rexec_dowhile id b c : rexec cm funs (S n) fn (RDoWhile id b c) fr g =
+  match rexec cm funs n fn b fr g with
   | Fuel => Fuel
   | Res cb fr g =>
       match rloop_ctl id cb with
-      | RLNext => rthr (cond c fr g) (fun t fr g => if t then rexec funs n fn (RDoWhile id b c) fr g else Res RNone fr g)
+      | RLNext => rthr (cond c fr g) (fun t fr g => if t then rexec cm funs n fn (RDoWhile id b c) fr g else Res RNone fr g)
       | RLExit c' => Res c' fr g
       end
   end.
 Proof. reflexivity. Qed.
-Lemma rexec_for id init c inc b : rexec funs (S n) fn (RFor id init c inc b) fr g =
-  match reval_each (rcallf funs n) funs fn init fr g with
+Lemma rexec_for id init c inc b : rexec cm funs (S n) fn (RFor id init c inc b) fr g =
+  match reval_each (rcallf cm funs n) funs fn init fr g with
   | Fuel => Fuel
   | Res (Some x) fr g => Res (RThrow x) fr g
   | Res None fr g =>
       rthr (cond c fr g) (fun t fr g =>
         if t then
-          match rexec funs n fn b fr g with
+          match rexec cm funs n fn b fr g with
           | Fuel => Fuel
           | Res cb fr g =>
               match rloop_ctl id cb with
               | RLNext =>
-                  match reval_each (rcallf funs n) funs fn inc fr g with
+                  match reval_each (rcallf cm funs n) funs fn inc fr g with
                   | Fuel => Fuel
                   | Res (Some x) fr g => Res (RThrow x) fr g
-                  | Res None fr g => rexec funs n fn (RFor id ANil c inc b) fr g
+                  | Res None fr g => rexec cm funs n fn (RFor id ANil c inc b) fr g
                   end
               | RLExit c' => Res c' fr g
               end
@@ -257,7 +292,7 @@ Definition reach (id : lid) (k : option string) (v : string) (b : rstmt) := fix 
   | (kv, vv) :: r =>
       let '(fr1, g1) := wr fn v vv fr g in
       let '(fr2, g2) := match k with Some kx => wr fn kx kv fr1 g1 | None => (fr1, g1) end in
-      match rexec funs n fn b fr2 g2 with
+      match rexec cm funs n fn b fr2 g2 with
       | Fuel => Fuel
       | Res cb fr g =>
           match rloop_ctl id cb with
@@ -266,7 +301,7 @@ Definition reach (id : lid) (k : option string) (v : string) (b : rstmt) := fix 
           end
       end
   end.
-Lemma rexec_foreach id a k v b : rexec funs (S n) fn (RForeach id a k v b) fr g =
+Lemma rexec_foreach id a k v b : rexec cm funs (S n) fn (RForeach id a k v b) fr g =
   match ev a fr g with
   | Fuel => Fuel
   | Res (EX x) fr g => Res (RThrow x) fr g
@@ -281,7 +316,7 @@ Definition rrunc (id : lid) := fix run (l : rclauses) (fr : frame) (g : glob) : 
   match l with
   | RCLNil => Res RNone fr g
   | RCLCase _ b r | RCLDefault b r =>
-      match rexec funs n fn b fr g with
+      match rexec cm funs n fn b fr g with
       | Fuel => Fuel
       | Res cb fr g =>
           match cb with
@@ -302,29 +337,62 @@ Definition rfind (id : lid) (cl : rclauses) (cv : value) := fix find (l : rclaus
       | Res (EV v) fr g => if switch_match cv v then rrunc id l fr g else find r fr g
       end
   end.
-Lemma rexec_switch id c cl : rexec funs (S n) fn (RSwitch id c cl) fr g =
+Lemma rexec_switch id c cl : rexec cm funs (S n) fn (RSwitch id c cl) fr g =
   match ev c fr g with
   | Fuel => Fuel
   | Res (EX x) fr g => Res (RThrow x) fr g
   | Res (EV cv) fr g => rfind id cl cv cl fr g
   end.
 Proof. reflexivity. Qed.
-Lemma rexec_brk l : rexec funs (S n) fn (RBrkTo l) fr g = Res (RBrk l) fr g.
+Lemma rexec_brk l : rexec cm funs (S n) fn (RBrkTo l) fr g = Res (RBrk l) fr g.
 Proof. reflexivity. Qed.
-Lemma rexec_cnt l : rexec funs (S n) fn (RCntTo l) fr g = Res (RCnt l) fr g.
+Lemma rexec_cnt l : rexec cm funs (S n) fn (RCntTo l) fr g = Res (RCnt l) fr g.
 Proof. reflexivity. Qed.
-Lemma rexec_bad : rexec funs (S n) fn RBad fr g =
+Lemma rexec_bad : rexec cm funs (S n) fn RBad fr g =
   Res (RThrow (err "'break'/'continue' not in the 'loop' or 'switch' context")) fr g.
 Proof. reflexivity. Qed.
-Lemma rexec_return_none : rexec funs (S n) fn (RReturn None) fr g = Res (RRet VNull) fr g.
+Lemma rexec_return_none : rexec cm funs (S n) fn (RReturn None) fr g = Res (RRet VNull) fr g.
 Proof. reflexivity. Qed.
-Lemma rexec_return e : rexec funs (S n) fn (RReturn (Some e)) fr g =
+Lemma rexec_return e : rexec cm funs (S n) fn (RReturn (Some e)) fr g =
   match ev e fr g with
   | Res (EV v) fr g => Res (RRet v) fr g | Res (EX x) fr g => Res (RThrow x) fr g | Fuel => Fuel end.
 Proof. reflexivity. Qed.
-Lemma rexec_static x init : rexec funs (S n) fn (RStatic x init) fr g =
-  let st := match sget (fn, x) (fst g) with Some _ => fst g | None => sset (fn, x) init (fst g) end in
-  Res RNone (fst fr, x :: snd fr) (st, snd g).
+Lemma rexec_static x init : rexec cm funs (S n) fn (RStatic x init) fr g =
+  let st := match sget (fn, x) (gstat g) with Some _ => gstat g | None => sset (fn, x) init (gstat g) end in
+  Res RNone (fst fr, x :: snd fr) (set_stat st g).
+Proof. reflexivity. Qed.
+Lemma rexec_try b cs f : rexec cm funs (S n) fn (RTry b cs f) fr g =
+  match rexec cm funs n fn b fr (mark CTry g) with
+  | Fuel => Fuel
+  | Res cb fr1 g1 =>
+      match
+        match cb with
+        | RThrow x =>
+            match handler_for cm cs x with
+            | Some (xv, h) =>
+                let '(fr2, g2) := match xv with Some v => wr fn v x fr1 g1 | None => (fr1, g1) end in
+                rexec cm funs n fn h fr2 g2
+            | None => Res cb fr1 g1
+            end
+        | _ => Res cb fr1 g1
+        end
+      with
+      | Fuel => Fuel
+      | Res c fr3 g3 =>
+          match rexec cm funs n fn f fr3 (mark CFin g3) with
+          | Fuel => Fuel
+          | Res RNone fr4 g4 => Res c fr4 g4
+          | Res cf fr4 g4 => Res cf fr4 g4
+          end
+      end
+  end.
+Proof. reflexivity. Qed.
+Lemma rexec_throw e : rexec cm funs (S n) fn (RThrowSt e) fr g =
+  match ev e fr g with
+  | Res (EV v) fr g => Res (RThrow (thrown_of v)) fr g
+  | Res (EX x) fr g => Res (RThrow x) fr g
+  | Fuel => Fuel
+  end.
 Proof. reflexivity. Qed.
 End UnfoldR.
 
@@ -543,6 +611,80 @@ Lemma reval_args_cons cf e r fr g : reval_args cf funs fn (ACons e r) fr g =
   end.
 Proof. reflexivity. Qed.
 
+Lemma ieval_new cf cls m fr g : ieval cf funs fn (ENew cls m) fr g =
+  match ieval cf funs fn m fr g with
+  | Res (EV v) fr g => Res (EV (VObj (gnext g) cls (to_str v))) fr (bump g)
+  | r => r
+  end.
+Proof. reflexivity. Qed.
+Lemma ieval_msg cf e fr g : ieval cf funs fn (EMsg e) fr g =
+  match ieval cf funs fn e fr g with
+  | Res (EV v) fr g =>
+      match msg_of v with
+      | Some m => Res (EV (VStr m)) fr g
+      | None => Res (EX (VErr "method call on a non-object")) fr g
+      end
+  | r => r
+  end.
+Proof. reflexivity. Qed.
+Lemma ieval_class cf e fr g : ieval cf funs fn (EClass e) fr g =
+  match ieval cf funs fn e fr g with
+  | Res (EV v) fr g =>
+      match class_of v with
+      | Some c => Res (EV (VStr c)) fr g
+      | None => Res (EX (VErr "get_class of a non-object")) fr g
+      end
+  | r => r
+  end.
+Proof. reflexivity. Qed.
+Lemma ieval_same cf a b fr g : ieval cf funs fn (ESame a b) fr g =
+  match ieval cf funs fn a fr g with
+  | Res (EV va) fr g =>
+      match ieval cf funs fn b fr g with
+      | Res (EV vb) fr g => Res (EV (VBool (same_value va vb))) fr g
+      | r => r
+      end
+  | r => r
+  end.
+Proof. reflexivity. Qed.
+
+Lemma reval_new cf cls m fr g : reval cf funs fn (ENew cls m) fr g =
+  match reval cf funs fn m fr g with
+  | Res (EV v) fr g => Res (EV (VObj (gnext g) cls (to_str v))) fr (bump g)
+  | r => r
+  end.
+Proof. reflexivity. Qed.
+Lemma reval_msg cf e fr g : reval cf funs fn (EMsg e) fr g =
+  match reval cf funs fn e fr g with
+  | Res (EV v) fr g =>
+      match msg_of v with
+      | Some m => Res (EV (VStr m)) fr g
+      | None => Res (EX (VErr "method call on a non-object")) fr g
+      end
+  | r => r
+  end.
+Proof. reflexivity. Qed.
+Lemma reval_class cf e fr g : reval cf funs fn (EClass e) fr g =
+  match reval cf funs fn e fr g with
+  | Res (EV v) fr g =>
+      match class_of v with
+      | Some c => Res (EV (VStr c)) fr g
+      | None => Res (EX (VErr "get_class of a non-object")) fr g
+      end
+  | r => r
+  end.
+Proof. reflexivity. Qed.
+Lemma reval_same cf a b fr g : reval cf funs fn (ESame a b) fr g =
+  match reval cf funs fn a fr g with
+  | Res (EV va) fr g =>
+      match reval cf funs fn b fr g with
+      | Res (EV vb) fr g => Res (EV (VBool (same_value va vb))) fr g
+      | r => r
+      end
+  | r => r
+  end.
+Proof. reflexivity. Qed.
+
 Lemma reval_postinc cf x fr g : reval cf funs fn (EPostInc x) fr g =
   let '(nv, ov) := incr_value (rd fn x fr g) in
   let '(fr', g') := wr fn x nv fr g in Res (EV ov) fr' g'.
@@ -559,7 +701,9 @@ Proof.
     try rewrite ieval_bin; try rewrite ieval_assign, reval_assign;
     try rewrite ieval_not, reval_not; try rewrite ieval_and, reval_and; try rewrite ieval_or, reval_or;
     try rewrite ieval_arr, reval_arr; try rewrite ieval_call, reval_call;
-    try rewrite ieval_args_cons, reval_args_cons.
+    try rewrite ieval_args_cons, reval_args_cons;
+    try rewrite ieval_new, reval_new; try rewrite ieval_msg, reval_msg;
+    try rewrite ieval_class, reval_class; try rewrite ieval_same, reval_same.
   - (* EBin *)
     assert (S : islow cf1 o a b fr g = reval cf2 funs fn (EBin o a b) fr g).
     { unfold islow. rewrite reval_bin. rewrite H. destruct (reval cf2 funs fn a fr g) as [|[va|x] fr0 g0]; try reflexivity.
@@ -581,6 +725,11 @@ Proof.
     destruct (find_fun funs f); [|reflexivity]. rewrite H.
     destruct (reval_args cf2 funs fn a fr g) as [|[vs|x] fr0 g0]; try reflexivity.
     rewrite cf_eq. reflexivity.
+  - rewrite H. reflexivity.
+  - rewrite H. reflexivity.
+  - rewrite H. reflexivity.
+  - rewrite H. destruct (reval cf2 funs fn a fr g) as [|[va|x] fr0 g0]; try reflexivity.
+    rewrite H0. reflexivity.
   - rewrite H. destruct (reval cf2 funs fn e fr g) as [|[v|x] fr0 g0]; try reflexivity.
     rewrite H0. reflexivity.
 Qed.
@@ -712,24 +861,28 @@ Proof.
 Qed.
 
 Section Sim.
+Variables cmi cmr : catchfn.
+Hypothesis Hcm : forall t v, cmi t v = cmr t v.
 Variable funs : list fundef.
 
 (* a block that ends in a jump never completes normally *)
 Lemma ends_jump_not_none : forall b fuel fn stk path fr g cc fr' g',
-  ends_jump b = true -> rexec funs fuel fn (resolve stk path b) fr g = Res cc fr' g' -> cc <> RNone.
+  ends_jump b = true -> rexec cmr funs fuel fn (resolve stk path b) fr g = Res cc fr' g' -> cc <> RNone.
 Proof.
   induction b; intros fuel fn stk path fr g cc fr' g' E R; simpl in E; try discriminate;
     (destruct fuel as [|fuel]; [rewrite rexec_0 in R; discriminate|]); cbn [resolve] in R.
   - rewrite rexec_seq in R.
-    destruct (rexec funs fuel fn (resolve stk (0 :: path) b1) fr g) as [|ca fa ga] eqn:Ea; [discriminate|].
+    destruct (rexec cmr funs fuel fn (resolve stk (0 :: path) b1) fr g) as [|ca fa ga] eqn:Ea; [discriminate|].
     destruct ca; try (inversion R; subst; discriminate).
     eapply IHb2; eauto.
   - destruct (target stk n); [rewrite rexec_brk in R|rewrite rexec_bad in R]; inversion R; discriminate.
   - destruct (target stk n); [rewrite rexec_cnt in R|rewrite rexec_bad in R]; inversion R; discriminate.
   - destruct e as [e|].
     + rewrite rexec_return in R.
-      destruct (reval (rcallf funs fuel) funs fn e fr g) as [|[v|x] f1 g1]; inversion R; discriminate.
+      destruct (reval (rcallf cmr funs fuel) funs fn e fr g) as [|[v|x] f1 g1]; inversion R; discriminate.
     + rewrite rexec_return_none in R. inversion R; discriminate.
+  - rewrite rexec_throw in R.
+    destruct (reval (rcallf cmr funs fuel) funs fn e fr g) as [|[v|x] f1 g1]; inversion R; discriminate.
 Qed.
 
 Hypothesis Hfuns : forall f d, find_fun funs f = Some d ->
@@ -738,18 +891,18 @@ Hypothesis Hfuns : forall f d, find_fun funs f = Some d ->
 Definition P (n : nat) := forall fn s stk path fr g,
   scoped (List.length stk) s = true -> one_default s = true -> clean_stmt (is_main fn) s = true ->
   shorter stk path ->
-  rrel stk (iexec funs n fn s fr g) (rexec funs n fn (resolve stk path s) fr g).
+  rrel stk (iexec cmi funs n fn s fr g) (rexec cmr funs n fn (resolve stk path s) fr g).
 
 Lemma shorter_nil path : shorter [] path.
 Proof. intros l []. Qed.
 
-Lemma callf_eq n : P n -> forall f vs g, icallf funs n f vs g = rcallf funs n f vs g.
+Lemma callf_eq n : P n -> forall f vs g, icallf cmi funs n f vs g = rcallf cmr funs n f vs g.
 Proof.
   intros IH f vs g. unfold icallf, rcallf. destruct (find_fun funs f) as [d|] eqn:E; [|reflexivity].
   destruct (Hfuns _ _ E) as (H1 & H2 & H3).
   pose proof (IH f (fbody d) [] [] (bind_params (fparams d) vs [], []) g H1 H2 H3 (shorter_nil _)) as R.
-  destruct (iexec funs n f (fbody d) (bind_params (fparams d) vs [], []) g) as [|ci fi gi];
-    destruct (rexec funs n f (resolve [] [] (fbody d)) (bind_params (fparams d) vs [], []) g) as [|cr fr gr];
+  destruct (iexec cmi funs n f (fbody d) (bind_params (fparams d) vs [], []) g) as [|ci fi gi];
+    destruct (rexec cmr funs n f (resolve [] [] (fbody d)) (bind_params (fparams d) vs [], []) g) as [|cr fr gr];
     simpl in R; try contradiction; [reflexivity|].
   destruct R as (C & _ & <-).
   destruct ci, cr; simpl in C; try contradiction; subst; try reflexivity.
@@ -774,15 +927,15 @@ Lemma sim_elifs fn stk path e : forall ei i fr g,
   scoped (List.length stk) e = true -> one_default e = true -> clean_stmt (is_main fn) e = true ->
   scoped_elifs (List.length stk) ei = true -> one_default_elifs ei = true -> clean_elifs (is_main fn) ei = true ->
   shorter stk path ->
-  rrel stk (ielif funs n fn e ei fr g)
-           (relif funs n fn (resolve stk (1 :: path) e) (resolve_elifs stk path i ei) fr g).
+  rrel stk (ielif cmi funs n fn e ei fr g)
+           (relif cmr funs n fn (resolve stk (1 :: path) e) (resolve_elifs stk path i ei) fr g).
 Proof.
   induction ei as [|c b r IHr]; intros i fr g He1 He2 He3 H1 H2 H3 Hsh; cbn [ielif relif resolve_elifs].
   - apply IH; auto using shorter_cons.
   - cbn [scoped_elifs one_default_elifs clean_elifs] in H1, H2, H3.
     apply andb_prop in H1 as [H1a H1b]. apply andb_prop in H2 as [H2a H2b]. apply andb_prop in H3 as [H3a H3b].
     rewrite (icond_rcond funs fn _ _ Hcf).
-    destruct (rcond (rcallf funs n) funs fn c fr g) as [|[t|x] f1 g1]; simpl; auto.
+    destruct (rcond (rcallf cmr funs n) funs fn c fr g) as [|[t|x] f1 g1]; simpl; auto.
     destruct t.
     + apply IH; auto using shorter_cons.
     + apply IHr; auto.
@@ -792,8 +945,8 @@ Qed.
 Lemma sim_each fn stk path k v b : forall items fr g,
   scoped (S (List.length stk)) b = true -> one_default b = true -> clean_stmt (is_main fn) b = true ->
   shorter stk path ->
-  rrel stk (ieach funs n fn k v b items fr g)
-           (reach funs n fn path k v (resolve (path :: stk) (0 :: path) b) items fr g).
+  rrel stk (ieach cmi funs n fn k v b items fr g)
+           (reach cmr funs n fn path k v (resolve (path :: stk) (0 :: path) b) items fr g).
 Proof.
   induction items as [|[kv vv] r IHr]; intros fr g H1 H2 H3 Hsh; cbn [ieach reach]; [simpl; auto|].
   destruct (wr fn v vv fr g) as [fr1 g1].
@@ -808,33 +961,33 @@ Qed.
 
 (* one switch clause that does not fall through (it is the last clause, or it ends in a jump) *)
 Lemma rrunc_unfold fn id b r fr g :
-  rrunc funs n fn id (RCLDefault b r) fr g =
-  match rexec funs n fn b fr g with
+  rrunc cmr funs n fn id (RCLDefault b r) fr g =
+  match rexec cmr funs n fn b fr g with
   | Fuel => Fuel
   | Res cb fr g =>
       match cb with
-      | RNone => rrunc funs n fn id r fr g
+      | RNone => rrunc cmr funs n fn id r fr g
       | RBrk l' | RCnt l' => if lid_eqb l' id then Res RNone fr g else Res cb fr g
       | _ => Res cb fr g
       end
   end.
 Proof. reflexivity. Qed.
 Lemma rrunc_case fn id e b r fr g :
-  rrunc funs n fn id (RCLCase e b r) fr g = rrunc funs n fn id (RCLDefault b r) fr g.
+  rrunc cmr funs n fn id (RCLCase e b r) fr g = rrunc cmr funs n fn id (RCLDefault b r) fr g.
 Proof. reflexivity. Qed.
 
 Lemma sim_run_clause fn stk path i b r fr g :
   scoped (S (List.length stk)) b = true -> one_default b = true -> clean_stmt (is_main fn) b = true ->
   shorter stk path ->
   (match r with CLNil => true | _ => ends_jump b end) = true ->
-  rrel stk (irun_clause funs n fn b fr g)
-           (rrunc funs n fn path
+  rrel stk (irun_clause cmi funs n fn b fr g)
+           (rrunc cmr funs n fn path
               (RCLDefault (resolve (path :: stk) (i :: path) b) (resolve_clauses (path :: stk) path (S i) r)) fr g).
 Proof.
   intros H1 H2 H3 Hsh Hend. unfold irun_clause. rewrite rrunc_unfold.
   pose proof (IH fn b (path :: stk) (i :: path) fr g H1 H2 H3 (shorter_push _ _ _ Hsh)) as R.
-  destruct (iexec funs n fn b fr g) as [|ci fi gi];
-    destruct (rexec funs n fn (resolve (path :: stk) (i :: path) b) fr g) as [|cr fr' gr] eqn:ER;
+  destruct (iexec cmi funs n fn b fr g) as [|ci fi gi];
+    destruct (rexec cmr funs n fn (resolve (path :: stk) (i :: path) b) fr g) as [|cr fr' gr] eqn:ER;
     simpl in R; try contradiction; [exact I|].
   destruct R as (R & <- & <-).
   pose proof (switch_ctl_rel stk path ci cr R (shorter_neq _ _ Hsh)) as SW.
@@ -857,8 +1010,8 @@ Proof. revert acc. induction r; simpl; intros; auto; discriminate. Qed.
 Lemma sim_default fn stk path : forall cl i fr g,
   scoped_clauses (S (List.length stk)) cl = true -> one_default_clauses cl = true ->
   clean_clauses (is_main fn) cl = true -> (count_default cl <= 1)%nat -> shorter stk path ->
-  rrel stk (match default_of cl None with Some b => irun_clause funs n fn b fr g | None => Res INone fr g end)
-           (rrunc funs n fn path (from_default (resolve_clauses (path :: stk) path i cl)) fr g).
+  rrel stk (match default_of cl None with Some b => irun_clause cmi funs n fn b fr g | None => Res INone fr g end)
+           (rrunc cmr funs n fn path (from_default (resolve_clauses (path :: stk) path i cl)) fr g).
 Proof.
   induction cl as [|e b r IHr|b r IHr]; intros i fr g H1 H2 H3 Hc Hsh;
     cbn [default_of resolve_clauses from_default].
@@ -875,14 +1028,14 @@ Qed.
 
 (* the case search of SwitchStatement.GetValue *)
 Lemma sim_cases fn stk path cl0 rcl0 cv :
-  (forall fr g, rrel stk (match default_of cl0 None with Some b => irun_clause funs n fn b fr g | None => Res INone fr g end)
-                         (rrunc funs n fn path (from_default rcl0) fr g)) ->
+  (forall fr g, rrel stk (match default_of cl0 None with Some b => irun_clause cmi funs n fn b fr g | None => Res INone fr g end)
+                         (rrunc cmr funs n fn path (from_default rcl0) fr g)) ->
   shorter stk path ->
   forall l i fr g,
   scoped_clauses (S (List.length stk)) l = true -> one_default_clauses l = true ->
   clean_clauses (is_main fn) l = true ->
-  rrel stk (icases funs n fn cl0 cv l fr g)
-           (rfind funs n fn path rcl0 cv (resolve_clauses (path :: stk) path i l) fr g).
+  rrel stk (icases cmi funs n fn cl0 cv l fr g)
+           (rfind cmr funs n fn path rcl0 cv (resolve_clauses (path :: stk) path i l) fr g).
 Proof.
   intros D Hsh. induction l as [|e b r IHr|b r IHr]; intros i fr g H1 H2 H3;
     cbn [icases rfind resolve_clauses].
@@ -891,13 +1044,65 @@ Proof.
     apply andb_prop in H1 as [H1 H1r]. apply andb_prop in H2 as [H2 H2r].
     apply andb_prop in H3 as [H3 H3r]. apply andb_prop in H3 as [H3e H3].
     rewrite (ieval_reval funs fn _ _ Hcf).
-    destruct (reval (rcallf funs n) funs fn e fr g) as [|[v|x] f1 g1]; [simpl; auto| |simpl; auto].
+    destruct (reval (rcallf cmr funs n) funs fn e fr g) as [|[v|x] f1 g1]; [simpl; auto| |simpl; auto].
     destruct (switch_match cv v).
     + rewrite rrunc_case. apply sim_run_clause; auto.
     + apply IHr; auto.
   - cbn [scoped_clauses one_default_clauses clean_clauses] in *.
     apply andb_prop in H1 as [H1 H1r]. apply andb_prop in H2 as [H2 H2r].
     apply andb_prop in H3 as [H3 H3r]. apply IHr; auto.
+Qed.
+
+(* the catch search: same clause on both sides *)
+Lemma find_catch_rel fn stk path x : forall cs i,
+  scoped_catches (List.length stk) cs = true -> one_default_catches cs = true ->
+  clean_catches (is_main fn) cs = true ->
+  match find_catch cmi cs x, handler_for cmr (resolve_catches stk path i cs) x with
+  | None, None => True
+  | Some (xv, cb), Some (xv', h) =>
+      xv = xv' /\ exists j, h = resolve stk (j :: path) cb /\
+      scoped (List.length stk) cb = true /\ one_default cb = true /\ clean_stmt (is_main fn) cb = true
+  | _, _ => False
+  end.
+Proof.
+  induction cs as [|ty xv b r IHr]; intros i H1 H2 H3; cbn [find_catch handler_for resolve_catches]; [exact I|].
+  cbn [scoped_catches one_default_catches clean_catches] in *.
+  apply andb_prop in H1 as [H1 H1r]. apply andb_prop in H2 as [H2 H2r]. apply andb_prop in H3 as [H3 H3r].
+  rewrite <- Hcm. destruct (cmi ty x).
+  - split; [reflexivity|]. exists i. auto.
+  - apply IHr; auto.
+Qed.
+
+(* the finally part of TryStatement.GetValue *)
+Lemma sim_finally fn stk path f ri rr :
+  scoped (List.length stk) f = true -> one_default f = true -> clean_stmt (is_main fn) f = true ->
+  shorter stk path -> rrel stk ri rr ->
+  rrel stk
+    match ri with
+    | Fuel => Fuel
+    | Res c fr3 g3 =>
+        match iexec cmi funs n fn f fr3 (mark CFin g3) with
+        | Fuel => Fuel
+        | Res INone fr4 g4 => Res c fr4 g4
+        | Res cf fr4 g4 => Res cf fr4 g4
+        end
+    end
+    match rr with
+    | Fuel => Fuel
+    | Res c fr3 g3 =>
+        match rexec cmr funs n fn (resolve stk (1 :: path) f) fr3 (mark CFin g3) with
+        | Fuel => Fuel
+        | Res RNone fr4 g4 => Res c fr4 g4
+        | Res cf fr4 g4 => Res cf fr4 g4
+        end
+    end.
+Proof.
+  intros H1 H2 H3 Hsh R.
+  destruct ri as [|c fr3 g3], rr as [|c' fr3' g3']; simpl in R; try contradiction; [exact I|].
+  destruct R as (C & <- & <-).
+  pose proof (IH fn f stk (1 :: path) fr3 (mark CFin g3) H1 H2 H3 (shorter_cons _ _ _ Hsh)) as R.
+  split_rel R ci fi gi cr fr' gr.
+  destruct ci, cr; simpl in R; try contradiction; simpl; auto.
 Qed.
 
 Lemma sim_step : P (S n).
@@ -914,26 +1119,26 @@ Proof.
     apply IH; auto using shorter_cons.
   - (* SExpr *)
     rewrite iexec_expr, rexec_expr, (ieval_reval funs fn _ _ Hcf).
-    destruct (reval (rcallf funs n) funs fn e fr g) as [|[v|x] f1 g1]; simpl; auto.
+    destruct (reval (rcallf cmr funs n) funs fn e fr g) as [|[v|x] f1 g1]; simpl; auto.
   - (* SEcho *)
     rewrite iexec_echo, rexec_echo, (ieval_reval funs fn _ _ Hcf).
-    destruct (reval (rcallf funs n) funs fn e fr g) as [|[v|x] f1 g1]; simpl; auto.
+    destruct (reval (rcallf cmr funs n) funs fn e fr g) as [|[v|x] f1 g1]; simpl; auto.
   - (* SPush *)
     rewrite iexec_push, rexec_push, (ieval_reval funs fn _ _ Hcf).
-    destruct (reval (rcallf funs n) funs fn e fr g) as [|[v|y] f1 g1]; try (simpl; auto; fail).
+    destruct (reval (rcallf cmr funs n) funs fn e fr g) as [|[v|y] f1 g1]; try (simpl; auto; fail).
     destruct (wr fn x (arr_push (rd fn x f1 g1) v) f1 g1). simpl. auto.
   - (* SIf *)
     apply andb_prop in Hs as [Hs Hs3]. apply andb_prop in Hs as [Hs1 Hs2].
     apply andb_prop in Ho as [Ho Ho3]. apply andb_prop in Ho as [Ho1 Ho2].
     apply andb_prop in Hc as [Hc Hc3]. apply andb_prop in Hc as [Hc1 Hc2].
     rewrite iexec_if, rexec_if, (icond_rcond funs fn _ _ Hcf).
-    destruct (rcond (rcallf funs n) funs fn c fr g) as [|[t|x] f1 g1]; try (simpl; auto; fail).
+    destruct (rcond (rcallf cmr funs n) funs fn c fr g) as [|[t|x] f1 g1]; try (simpl; auto; fail).
     cbn [thr rthr]. destruct t.
     + apply IH; auto using shorter_cons.
     + apply sim_elifs; auto.
   - (* SWhile *)
     rewrite iexec_while, rexec_while, (icond_rcond funs fn _ _ Hcf).
-    destruct (rcond (rcallf funs n) funs fn c fr g) as [|[t|x] f1 g1]; try (simpl; auto; fail).
+    destruct (rcond (rcallf cmr funs n) funs fn c fr g) as [|[t|x] f1 g1]; try (simpl; auto; fail).
     cbn [thr rthr]. destruct t; [|simpl; auto].
     pose proof (IH fn s (path :: stk) (0 :: path) f1 g1 Hs Ho Hc (shorter_push _ _ _ Hsh)) as R.
     split_rel R ci fi gi cr fr' gr.
@@ -948,31 +1153,31 @@ Proof.
     pose proof (loop_ctl_rel stk path ci cr R (shorter_neq _ _ Hsh)) as L.
     destruct (loop_ctl ci), (rloop_ctl path cr); try contradiction; [|simpl; auto].
     rewrite (icond_rcond funs fn _ _ Hcf).
-    destruct (rcond (rcallf funs n) funs fn c fi gi) as [|[t|x] f1 g1]; try (simpl; auto; fail).
+    destruct (rcond (rcallf cmr funs n) funs fn c fi gi) as [|[t|x] f1 g1]; try (simpl; auto; fail).
     cbn [thr rthr]. destruct t; [|simpl; auto].
     apply (IH fn (SDoWhile s c) stk path); auto.
   - (* SFor *)
     rewrite iexec_for, rexec_for, (ieval_each_reval funs fn _ _ Hcf).
-    destruct (reval_each (rcallf funs n) funs fn init fr g) as [|[x|] f0 g0]; try (simpl; auto; fail).
+    destruct (reval_each (rcallf cmr funs n) funs fn init fr g) as [|[x|] f0 g0]; try (simpl; auto; fail).
     rewrite (icond_for_rcond funs fn _ _ Hcf).
-    destruct (rcond (rcallf funs n) funs fn c f0 g0) as [|[t|x] f1 g1]; try (simpl; auto; fail).
+    destruct (rcond (rcallf cmr funs n) funs fn c f0 g0) as [|[t|x] f1 g1]; try (simpl; auto; fail).
     cbn [thr rthr]. destruct t; [|simpl; auto].
     pose proof (IH fn s (path :: stk) (0 :: path) f1 g1 Hs Ho Hc (shorter_push _ _ _ Hsh)) as R.
     split_rel R ci fi gi cr fr' gr.
     pose proof (loop_ctl_rel stk path ci cr R (shorter_neq _ _ Hsh)) as L.
     destruct (loop_ctl ci), (rloop_ctl path cr); try contradiction; [|simpl; auto].
     rewrite (ieval_incs_reval funs fn _ _ Hcf).
-    destruct (reval_each (rcallf funs n) funs fn inc fi gi) as [|[x|] f2 g2]; try (simpl; auto; fail).
+    destruct (reval_each (rcallf cmr funs n) funs fn inc fi gi) as [|[x|] f2 g2]; try (simpl; auto; fail).
     apply (IH fn (SFor ANil c inc s) stk path); auto.
   - (* SForeach *)
     rewrite iexec_foreach, rexec_foreach, (ieval_reval funs fn _ _ Hcf).
-    destruct (reval (rcallf funs n) funs fn arr fr g) as [|[av|x] f1 g1]; try (simpl; auto; fail).
+    destruct (reval (rcallf cmr funs n) funs fn arr fr g) as [|[av|x] f1 g1]; try (simpl; auto; fail).
     destruct (foreach_items av) as [items|]; [|simpl; auto].
     apply sim_each; auto.
   - (* SSwitch *)
     apply andb_prop in Ho as [Hd Ho]. apply Nat.leb_le in Hd.
     rewrite iexec_switch, rexec_switch, (ieval_reval funs fn _ _ Hcf).
-    destruct (reval (rcallf funs n) funs fn c fr g) as [|[cv|x] f1 g1]; try (simpl; auto; fail).
+    destruct (reval (rcallf cmr funs n) funs fn c fr g) as [|[cv|x] f1 g1]; try (simpl; auto; fail).
     apply sim_cases; auto.
     intros fr0 g0. apply sim_default; auto.
   - (* SBreak *)
@@ -982,11 +1187,30 @@ Proof.
   - (* SReturn *)
     destruct e as [e|].
     + rewrite iexec_return, rexec_return, (ieval_reval funs fn _ _ Hcf).
-      destruct (reval (rcallf funs n) funs fn e fr g) as [|[v|x] f1 g1]; simpl; auto.
+      destruct (reval (rcallf cmr funs n) funs fn e fr g) as [|[v|x] f1 g1]; simpl; auto.
     + rewrite iexec_return_none, rexec_return_none. simpl. auto.
   - (* SStatic *)
     rewrite iexec_static, rexec_static.
     unfold is_main in Hc. apply negb_true_iff in Hc. rewrite Hc. simpl. auto.
+  - (* STry *)
+    apply andb_prop in Hs as [Hs Hs3]. apply andb_prop in Hs as [Hs1 Hs2].
+    apply andb_prop in Ho as [Ho Ho3]. apply andb_prop in Ho as [Ho1 Ho2].
+    apply andb_prop in Hc as [Hc Hc3]. apply andb_prop in Hc as [Hc1 Hc2].
+    rewrite iexec_try, rexec_try.
+    pose proof (IH fn s1 stk (0 :: path) fr (mark CTry g) Hs1 Ho1 Hc1 (shorter_cons _ _ _ Hsh)) as R.
+    split_rel R ci fi gi cr fr' gr.
+    apply sim_finally; auto.
+    destruct ci, cr; simpl in R; try contradiction; try (simpl; auto; fail).
+    subst v0.
+    pose proof (find_catch_rel fn stk path v cs 2 Hs2 Ho2 Hc2) as F.
+    destruct (find_catch cmi cs v) as [[xv cb]|]; destruct (handler_for cmr (resolve_catches stk path 2 cs) v) as [[xv' h]|];
+      try contradiction; [|simpl; auto].
+    destruct F as (<- & j & -> & F1 & F2 & F3).
+    destruct (match xv with Some v1 => wr fn v1 v fi gi | None => (fi, gi) end) as [fr2 g2].
+    apply IH; auto using shorter_cons.
+  - (* SThrow *)
+    rewrite iexec_throw, rexec_throw, (ieval_reval funs fn _ _ Hcf).
+    destruct (reval (rcallf cmr funs n) funs fn e fr g) as [|[v|x] f1 g1]; simpl; auto.
 Qed.
 End Step.
 
@@ -1014,28 +1238,30 @@ Proof.
   rewrite (find_fun_name _ _ _ E) in C1. auto.
 Qed.
 
-Lemma impl_refines_ref_l : forall fuel p, wf p = true -> clean p = true ->
-  run_impl fuel p = run_ref fuel p.
+Lemma impl_refines_ref_l : forall cmi cmr, (forall t v, cmi t v = cmr t v) ->
+  forall fuel p, wf p = true -> clean p = true ->
+  run_impl cmi fuel p = run_ref cmr fuel p.
 Proof.
-  intros fuel p W C. unfold run_impl, run_ref, irun, rrun.
+  intros cmi cmr Hcm fuel p W C. unfold run_impl, run_ref, irun, rrun.
   pose proof (funs_ok p W C) as HF.
   unfold wf, clean in W, C. apply andb_prop in W as [W _]. apply andb_prop in C as [C _].
   unfold wf_body in W. apply andb_prop in W as [S O].
-  pose proof (sim (funcs p) HF fuel "" (main p) [] [] empty_frame empty_glob S O C (shorter_nil _)) as R.
-  destruct (iexec (funcs p) fuel "" (main p) empty_frame empty_glob) as [|ci fi gi];
-    destruct (rexec (funcs p) fuel "" (resolve [] [] (main p)) empty_frame empty_glob) as [|cr fr gr];
+  pose proof (sim cmi cmr Hcm (funcs p) HF fuel "" (main p) [] [] empty_frame empty_glob S O C (shorter_nil _)) as R.
+  destruct (iexec cmi (funcs p) fuel "" (main p) empty_frame empty_glob) as [|ci fi gi];
+    destruct (rexec cmr (funcs p) fuel "" (resolve [] [] (main p)) empty_frame empty_glob) as [|cr fr gr];
     simpl in R; try contradiction; [reflexivity|].
   destruct R as (R & _ & <-).
   destruct ci, cr; simpl in R; try contradiction; reflexivity.
 Qed.
 
 (* the statement-level refinement, for every statement in every context of a wf, clean program *)
-Lemma exits_named_l : forall p, wf p = true -> clean p = true ->
+Lemma exits_named_l : forall cmi cmr, (forall t v, cmi t v = cmr t v) ->
+  forall p, wf p = true -> clean p = true ->
   forall fuel fn s stk path fr g,
   scoped (List.length stk) s = true -> one_default s = true -> clean_stmt (is_main fn) s = true ->
   shorter stk path ->
-  rrel stk (iexec (funcs p) fuel fn s fr g) (rexec (funcs p) fuel fn (resolve stk path s) fr g).
-Proof. intros p W C fuel. apply sim. apply funs_ok; auto. Qed.
+  rrel stk (iexec cmi (funcs p) fuel fn s fr g) (rexec cmr (funcs p) fuel fn (resolve stk path s) fr g).
+Proof. intros cmi cmr Hcm p W C fuel. apply sim; auto. apply funs_ok; auto. Qed.
 
 (* fast paths of the implementation, stated on ImplSem alone: whenever a fast path fires it
    yields what the node it replaced yields *)
@@ -1114,14 +1340,14 @@ Definition w_static_main : prog :=
         (SSeq (SStatic "x" (VInt 0)) (SSeq (SExpr (EPostInc "x")) (SEcho (EVar "x"))))).
 
 Lemma switch_fallthrough_refuted_l :
-  wf w_fallthrough = true /\ run_impl 50 w_fallthrough = ("a", EndOk) /\ run_ref 50 w_fallthrough = ("ab", EndOk).
+  wf w_fallthrough = true /\ run_impl no_catch 50 w_fallthrough = ("a", EndOk) /\ run_ref no_catch 50 w_fallthrough = ("ab", EndOk).
 Proof. vm_compute. auto. Qed.
 Lemma switch_case_group_refuted_l :
-  wf w_case_group = true /\ run_impl 50 w_case_group = ("", EndOk) /\ run_ref 50 w_case_group = ("x", EndOk).
+  wf w_case_group = true /\ run_impl no_catch 50 w_case_group = ("", EndOk) /\ run_ref no_catch 50 w_case_group = ("x", EndOk).
 Proof. vm_compute. auto. Qed.
 Lemma switch_default_not_last_refuted_l :
-  wf w_default_first = true /\ run_impl 50 w_default_first = ("d", EndOk) /\ run_ref 50 w_default_first = ("d1", EndOk).
+  wf w_default_first = true /\ run_impl no_catch 50 w_default_first = ("d", EndOk) /\ run_ref no_catch 50 w_default_first = ("d1", EndOk).
 Proof. vm_compute. auto. Qed.
 Lemma static_in_main_refuted_l :
-  wf w_static_main = true /\ run_impl 50 w_static_main = ("11", EndOk) /\ run_ref 50 w_static_main = ("12", EndOk).
+  wf w_static_main = true /\ run_impl no_catch 50 w_static_main = ("11", EndOk) /\ run_ref no_catch 50 w_static_main = ("12", EndOk).
 Proof. vm_compute. auto. Qed.
